@@ -94,7 +94,9 @@ FoldEntries(doc, es, idx, T, path, ch, fuel, tn, tnRequired, k, acc) ==
   ELSE LET en == es[idx[k]]
            r  == IF en.key = "__typename"
                  THEN Res(Sc("str", tn), IF tnRequired THEN Sc("str", tn) ELSE Sc("opt", tn), {}, FALSE)
-                 ELSE LET fd == FieldOf(XS, T, doc.nodes[en.node].name)
+                 \* the field as declared by the type in whose scope it is written: an object may
+                 \* narrow an interface field (String -> String!), the client type follows the scope
+                 ELSE LET fd == FieldOf(XS, ScopeType(XS, doc, Roots("full"), en.node), doc.nodes[en.node].name)
                       IN  EvalPos(doc, fd.q, fd.base, en.node, path \o "/" \o en.key, ch, fuel, TRUE, 1)
        IN  FoldEntries(doc, es, idx, T, path, ch, fuel, tn, tnRequired, k + 1,
                    IF r.del THEN [acc EXCEPT !.pos = @ \cup r.pos]
@@ -187,12 +189,23 @@ Verdict(p) ==
     [] p.alt.a = "c_tn_swap"    -> "swap"
     [] OTHER                    -> "reject"
 
-\* baseline + every single flip, conforming and corrupting
+\* baseline + every single flip, conforming and corrupting; and, because the members selected for
+\* a non-default run-time type only exist after a type flip, every flip of a position that a type
+\* flip newly exposes (distance 2, restricted to "type flip, then a position beneath it")
+Vec(p, ctx, r) == [path |-> p.path, alt |-> p.alt, class |-> p.class, verdict |-> Verdict(p), ctx |-> ctx,
+                   payload |-> r.v, expect |-> r.e]
+
 Vectors(doc, roots, d) ==
   LET base == EvalOp(doc, roots, d, <<>>)
-  IN  {[path |-> "", alt |-> NoAlt, class |-> "conform", verdict |-> "ok",
+      basePaths == {x.path : x \in base.pos}
+      typeFlips == {p \in base.pos : p.alt.a = "type"}
+      Second(p) ==
+        LET f == p.path :> p.alt
+            r == EvalOp(doc, roots, d, f)
+        IN  {Vec(q, p.path \o "=" \o p.alt.x, EvalOp(doc, roots, d, f @@ (q.path :> q.alt))) :
+                q \in {x \in r.pos : x.path \notin basePaths}}
+  IN  {[path |-> "", alt |-> NoAlt, class |-> "conform", verdict |-> "ok", ctx |-> "",
         payload |-> base.v, expect |-> base.e]} \cup
-      {LET r == EvalOp(doc, roots, d, p.path :> p.alt)
-       IN  [path |-> p.path, alt |-> p.alt, class |-> p.class, verdict |-> Verdict(p),
-            payload |-> r.v, expect |-> r.e] : p \in base.pos}
+      {Vec(p, "", EvalOp(doc, roots, d, p.path :> p.alt)) : p \in base.pos} \cup
+      UNION {Second(p) : p \in typeFlips}
 =============================================================================
